@@ -504,6 +504,21 @@ func (rm *room) propose(i int, actor user, before map[ref.Key]string) (typ strin
 					// nominate an authorising user (honest: somebody joined)
 					c["join_authorised_via_users_server"] = other.id
 					r.Probe("join_with_authorised_via")
+					if t.Chance(200) {
+						// the member name in another letter case, or given twice:
+						// readers that decode the content into a struct
+						// (encoding/json: names matched case-insensitively, last
+						// occurrence wins) see other.id as the authoriser - and
+						// whatever names the needed state has to see the same
+						content = json.RawMessage(sim.Pick(t, []string{
+							fmt.Sprintf(`{"membership":"join","Join_Authorised_Via_Users_Server":%q}`, other.id),
+							fmt.Sprintf(`{"JOIN_AUTHORISED_VIA_USERS_SERVER":%q,"membership":"join"}`, other.id),
+							fmt.Sprintf(`{"join_authorised_via_users_server":"@nobody:%s","membership":"join","join_authorised_via_users_server":%q}`, actor.srv.Name, other.id),
+							fmt.Sprintf(`{"join_authorised_via_users_server":%q,"membership":"leave","membership":"join"}`, other.id),
+						}))
+						r.Probe("join_with_authorised_via_oddly_spelled")
+						return
+					}
 				}
 			}
 		}
